@@ -105,6 +105,7 @@ type PathStats struct {
 	AssertsTotal int
 	Covers       map[string]int
 	CoverModels  map[string]map[string]string
+	coverCands   map[string][]coverCand
 	Funcs        map[string]int
 	Files        map[string]int // instructions executed per source file of the tree under test
 	Stubs        map[string]int
@@ -226,10 +227,11 @@ func Explore(P *Program, pkg *ssa.Package, spec HarnessSpec, nworkers int, solve
 				for k := range res.covers {
 					st.Covers[k]++
 				}
+				// up to coverModelsPerLabel witnesses per cover label, chosen by a hash of the path's
+				// decision sequence: which paths are validated natively does not depend on the order in
+				// which the workers finish, and they are spread over the paths that reach the label
 				for k, m := range res.coverModel {
-					if _, ok := st.CoverModels[k]; !ok {
-						st.CoverModels[k] = m
-					}
+					st.addCoverModel(k, m, res.decisions)
 				}
 				for k, v := range res.funcs {
 					st.Funcs[k] += v
@@ -302,6 +304,7 @@ type pathResult struct {
 	assertsTotal int
 	covers       map[string]bool
 	coverModel   map[string]map[string]string
+	decisions    []int
 	funcs        map[string]int
 	stubs        map[string]int
 	unknowns     int
@@ -310,6 +313,40 @@ type pathResult struct {
 	files        map[string]int
 	inconclusive []string
 	sample       map[string]interface{}
+}
+
+const coverModelsPerLabel = 4
+
+type coverCand struct {
+	hash  uint64
+	key   string
+	model map[string]string
+}
+
+// addCoverModel keeps, per label, the coverModelsPerLabel witnesses with the smallest hashes.
+// They are stored in CoverModels as label, label+"\x00"+"1", ... (validateCovers strips the suffix).
+func (st *PathStats) addCoverModel(label string, m map[string]string, decisions []int) {
+	h := uint64(1469598103934665603)
+	for _, d := range decisions {
+		h ^= uint64(d) + 0x9e3779b97f4a7c15
+		h *= 1099511628211
+	}
+	if st.coverCands == nil {
+		st.coverCands = map[string][]coverCand{}
+	}
+	cs := append(st.coverCands[label], coverCand{hash: h, model: m})
+	sort.Slice(cs, func(i, j int) bool { return cs[i].hash < cs[j].hash })
+	if len(cs) > coverModelsPerLabel {
+		cs = cs[:coverModelsPerLabel]
+	}
+	st.coverCands[label] = cs
+	for i, c := range cs {
+		k := label
+		if i > 0 {
+			k = fmt.Sprintf("%s\x00%d", label, i)
+		}
+		st.CoverModels[k] = c.model
+	}
 }
 
 func newExec(P *Program, wk *worker, spec HarnessSpec, prefix []int) *Exec {
@@ -386,6 +423,7 @@ func runPath(P *Program, pkg *ssa.Package, fn *ssa.Function, spec HarnessSpec, w
 		res.assertsTotal = e.assertsTotal
 		res.covers = e.covers
 		res.coverModel = e.coverModel
+		res.decisions = append([]int(nil), e.decisions...)
 		res.unknowns = e.unknowns
 		res.overflowObl = e.overflowObl
 		res.inconclusive = e.inconclusive
